@@ -146,6 +146,7 @@ def run(case: dict, ctx) -> dict:
     if v.size != meta["size"]:
         res["viol"].append({"what": "size mismatch", "mech": MECH, "detail": {"got": v.size, "exp": meta["size"]}})
     reqs, exhaustive = gen_requests(rng, meta["size"], [bs], n_random=40 if ctx.tier == "quick" else 120)
+    fault_retry_reads(v, model, reqs, rng, res, MECH, n=3)  # cold caches
     continuation_reads(v, model, reqs, rng, res, MECH)
     fault_retry_reads(v, model, reqs, rng, res, MECH)
     compare_reads(v, model, reqs, res, MECH)
